@@ -84,6 +84,10 @@
 -/
 import JdProofs.CliProofs
 import JdProofs.CliRoundTrip
+import JdProofs.CliExitCodes
+import JdProofs.CliRoundTripModesEx
+import JdProofs.CliRoundTripModesPatch
+import JdProofs.CliRoundTripModes
 
 set_option autoImplicit false
 
@@ -403,5 +407,132 @@ example : isDiffMode CliRT.Toy.toyFl ∧ CliRT.PatchTwin CliRT.Toy.toyFl CliRT.T
       CliRT.LibRoundTrip CliRT.Toy.toyLib fmt color opts a b (fun r => r = b)) :=
   ⟨⟨rfl, rfl, rfl, rfl, rfl⟩, canonical_patch_twin ⟨rfl, rfl, rfl, rfl, rfl⟩ "" 2 (.inr rfl),
     CliRT.Toy.toy_libRoundTrip⟩
+
+/-! ## The `-p` round trip in the other readings and formats, without a library hypothesis
+   — proofs in JdProofs/CliRoundTripModes*.lean (ns `Jd.CliRTM`); `TwoRuns P1 P2 fl fl2 T code out` bundles what the two
+   processes do (first: emits `T`, exits `code`, nothing on stderr, `-o` honoured; second: exits 0, emits `out`). -/
+
+section
+open Jd Jd.Spec Jd.Cli Jd.CliRT Jd.CliRTM Jd.PB Jd.Robust Jd.Merge Jd.DPL
+
+/-- **C14 round trip, `-set` / `-mset`, native format, no library hypothesis**: `jd -set a b` then `jd -p -set T a` (stdin or file, `-o` in either run, JSON or YAML): the second process exits 0 and emits the rendering of a document that Equals `b` under the options -/
+theorem native_cli_round_trip_setmodes (F : FloatEq0) (FL : FloatLaws) (nc : NumCodec)
+    (Y : YamlCarrier) (Ls : Bool → LibPack) (hL : Ls false = ⟨Json, Diff, nativeLib nc Y⟩)
+    (b : Binary) {fl fl2 : Flags} {e1 e2 : Env}
+    (hm : isDiffMode fl) (h : PatchTwin fl fl2) (hv2 : libIsV1 b fl = false)
+    (hsm : fl.set = true ∨ fl.mset = true) (hkeys : fl.setkeys = "") (hprec : fl.precision = 0)
+    (hfmt : formatOf fl.f = some .jd) (hcolor : fl.color = false)
+    (hn : fl.nargs = 1 ∨ fl.nargs = 2)
+    {ta tb : String} {a b' : Json}
+    (hi1 : e1.in1 = .ok ta) (hi2 : e1.in2 = .ok tb) (hw1 : fl.o = "" ∨ e1.write = .ok ())
+    (hra : (nativeLib nc Y).readDoc fl.yaml ta = .ok a)
+    (hrb : (nativeLib nc Y).readDoc fl.yaml tb = .ok b')
+    (ha : a.setDoc = true) (hb : b'.setDoc = true)
+    (hva : E2E.voidFree a = true) (hvb : E2E.voidFree b' = true)
+    (HF : HashFaithful (modeOpts fl) (subterms a ++ subterms b'))
+    (hv : ∀ z ∈ subterms a ++ subterms b', (marshalNode nc z).isSome = true ∧ NativeRT.ValOK nc z)
+    (hp : ∀ h ∈ diffM (modeOpts fl) a b',
+      (jsonM nc (pathToJson h.path)).isSome = true ∧ NativeRT.PathOK nc h.path)
+    (hT : e2.in1 = .ok (emitted (proc Ls b fl e1)))
+    (ha2 : e2.in2 = e1.in1) (hw : fl2.o = "" ∨ e2.write = .ok ()) :
+    ∃ T d' r,
+      parsedOptions b fl = .ok (modeOpts fl) ∧
+      renderM nc [] (diffM (modeOpts fl) a b') = some T ∧
+      readDiffM nc T = .ok d' ∧ patchM a d' = .ok r ∧
+      equivB (modeOpts fl) r b' = true ∧ equals (modeOpts fl) r b' = true ∧
+      TwoRuns (proc Ls b fl e1) (proc Ls b fl2 e2) fl fl2 T (if T = "" then 0 else 1)
+        ((nativeLib nc Y).renderDoc fl.yaml (modeOpts fl) r) :=
+  Jd.CliRTM.native_cli_round_trip_setmodes (F := F) (FL := FL) (nc := nc) (Y := Y) (Ls := Ls) (hL := hL) (b := b) (fl := fl) (fl2 := fl2) (e1 := e1) (e2 := e2) (hm := hm) (h := h) (hv2 := hv2) (hsm := hsm) (hkeys := hkeys) (hprec := hprec) (hfmt := hfmt) (hcolor := hcolor) (hn := hn) (ta := ta) (tb := tb) (a := a) (b' := b') (hi1 := hi1) (hi2 := hi2) (hw1 := hw1) (hra := hra) (hrb := hrb) (ha := ha) (hb := hb) (hva := hva) (hvb := hvb) (HF := HF) (hv := hv) (hp := hp) (hT := hT) (ha2 := ha2) (hw := hw)
+
+/-- **C14 round trip, `-setkeys k[,…]`** (with or without `-set`), under `DPK.KeysHyp`; `ks ≠ []` always holds on the command line (`CliRTM.splitKeys_ne_nil`) -/
+theorem native_cli_round_trip_setkeys (F : FloatEq0) (FL : FloatLaws) (nc : NumCodec)
+    (Y : YamlCarrier) (Ls : Bool → LibPack) (hL : Ls false = ⟨Json, Diff, nativeLib nc Y⟩)
+    (b : Binary) {fl fl2 : Flags} {e1 e2 : Env}
+    (hm : isDiffMode fl) (h : PatchTwin fl fl2) (hv2 : libIsV1 b fl = false)
+    {ks : List String} (hkeys : fl.setkeys ≠ "") (hsk : splitKeys fl.setkeys = .ok ks)
+    (hmset : fl.mset = false) (hprec : fl.precision = 0)
+    (hfmt : formatOf fl.f = some .jd) (hcolor : fl.color = false)
+    (hn : fl.nargs = 1 ∨ fl.nargs = 2)
+    {ta tb : String} {a b' : Json}
+    (hi1 : e1.in1 = .ok ta) (hi2 : e1.in2 = .ok tb) (hw1 : fl.o = "" ∨ e1.write = .ok ())
+    (hra : (nativeLib nc Y).readDoc fl.yaml ta = .ok a)
+    (hrb : (nativeLib nc Y).readDoc fl.yaml tb = .ok b')
+    (ha : a.setDoc = true) (hb : b'.setDoc = true)
+    (hva : E2E.voidFree a = true) (hvb : E2E.voidFree b' = true)
+    (KH : DPK.KeysHyp (keysOpts fl ks) ks a b')
+    (hv : ∀ z ∈ subterms a ++ subterms b', (marshalNode nc z).isSome = true ∧ NativeRT.ValOK nc z)
+    (hp : ∀ h ∈ diffM (keysOpts fl ks) a b',
+      (jsonM nc (pathToJson h.path)).isSome = true ∧ NativeRT.PathOK nc h.path)
+    (hT : e2.in1 = .ok (emitted (proc Ls b fl e1)))
+    (ha2 : e2.in2 = e1.in1) (hw : fl2.o = "" ∨ e2.write = .ok ()) :
+    ∃ T d' r,
+      parsedOptions b fl = .ok (keysOpts fl ks) ∧
+      renderM nc [] (diffM (keysOpts fl ks) a b') = some T ∧
+      readDiffM nc T = .ok d' ∧ patchM a d' = .ok r ∧
+      equivB (keysOpts fl ks) r b' = true ∧ equals (keysOpts fl ks) r b' = true ∧
+      TwoRuns (proc Ls b fl e1) (proc Ls b fl2 e2) fl fl2 T (if T = "" then 0 else 1)
+        ((nativeLib nc Y).renderDoc fl.yaml (keysOpts fl ks) r) :=
+  Jd.CliRTM.native_cli_round_trip_setkeys (F := F) (FL := FL) (nc := nc) (Y := Y) (Ls := Ls) (hL := hL) (b := b) (fl := fl) (fl2 := fl2) (e1 := e1) (e2 := e2) (hm := hm) (h := h) (hv2 := hv2) (ks := ks) (hkeys := hkeys) (hsk := hsk) (hmset := hmset) (hprec := hprec) (hfmt := hfmt) (hcolor := hcolor) (hn := hn) (ta := ta) (tb := tb) (a := a) (b' := b') (hi1 := hi1) (hi2 := hi2) (hw1 := hw1) (hra := hra) (hrb := hrb) (ha := ha) (hb := hb) (hva := hva) (hvb := hvb) (KH := KH) (hv := hv) (hp := hp) (hT := hT) (ha2 := ha2) (hw := hw)
+
+/-- **C14 round trip, `-f merge`** (list reading, null-free second document, `mergeRTDom`: not a non-object against `{}` = KF-C12-emptyobj); both exclusions are shown necessary (`merge_emptyobj_no_libRoundTrip`, `merge_null_no_libRoundTrip`) -/
+theorem merge_cli_round_trip (L : FloatLaws) (nc : NumCodec)
+    (Y : YamlCarrier) (Ls : Bool → LibPack) (hL : Ls false = ⟨Json, Diff, nativeLib nc Y⟩)
+    (b : Binary) {fl fl2 : Flags} {e1 e2 : Env}
+    (hm : isDiffMode fl) (h : PatchTwin fl fl2) (hv2 : libIsV1 b fl = false)
+    (hf : fl.f = "merge") (hset : fl.set = false) (hmset : fl.mset = false)
+    (hkeys : fl.setkeys = "") (hprec : fl.precision = 0)
+    (hn : fl.nargs = 1 ∨ fl.nargs = 2)
+    {ta tb : String} {a b' : Json}
+    (hi1 : e1.in1 = .ok ta) (hi2 : e1.in2 = .ok tb) (hw1 : fl.o = "" ∨ e1.write = .ok ())
+    (hra : (nativeLib nc Y).readDoc fl.yaml ta = .ok a)
+    (hrb : (nativeLib nc Y).readDoc fl.yaml tb = .ok b')
+    (haw : a.wf = true) (har : a.rawDoc = true)
+    (hbw : b'.wf = true) (hbr : b'.rawDoc = true) (hbn : b'.nullFree = true)
+    (hbf : b'.finiteNums = true) (hbv : Yaml.voidFree b' = true) (hbN : JText.NumOK nc b' = true)
+    (hab : mergeRTDom a b' = true)
+    (hT : e2.in1 = .ok (emitted (proc Ls b fl e1)))
+    (ha2 : e2.in2 = e1.in1) (hw : fl2.o = "" ∨ e2.write = .ok ()) :
+    ∃ T d' r,
+      parsedOptions b fl = .ok (mergeOpts fl) ∧
+      renderMergeM nc (diffM (mergeOpts fl) a b') = .ok (some T) ∧
+      readMergeM nc T = .ok d' ∧ patchM a d' = .ok r ∧
+      equals (mergeOpts fl) r b' = true ∧ equivB (mergeOpts fl) r b' = true ∧
+      specEq r b' = true ∧ r.listDoc = true ∧
+      TwoRuns (proc Ls b fl e1) (proc Ls b fl2 e2) fl fl2 T
+        (if (diffM (mergeOpts fl) a b').length > 0 then 1 else 0)
+        ((nativeLib nc Y).renderDoc fl.yaml (mergeOpts fl) r) :=
+  Jd.CliRTM.merge_cli_round_trip (L := L) (nc := nc) (Y := Y) (Ls := Ls) (hL := hL) (b := b) (fl := fl) (fl2 := fl2) (e1 := e1) (e2 := e2) (hm := hm) (h := h) (hv2 := hv2) (hf := hf) (hset := hset) (hmset := hmset) (hkeys := hkeys) (hprec := hprec) (hn := hn) (ta := ta) (tb := tb) (a := a) (b' := b') (hi1 := hi1) (hi2 := hi2) (hw1 := hw1) (hra := hra) (hrb := hrb) (haw := haw) (har := har) (hbw := hbw) (hbr := hbr) (hbn := hbn) (hbf := hbf) (hbv := hbv) (hbN := hbN) (hab := hab) (hT := hT) (ha2 := ha2) (hw := hw)
+
+/-- **C14 round trip, `-f patch`** (list reading, any `-precision`, any `-color`): through the JSON text, where the `jsonList` tag of a removed array is lost (`renderPatchOps_map_untagHunk`) -/
+theorem patch_cli_round_trip (L : FloatLaws) (F : FloatEq0) (nc : NumCodec)
+    (Y : YamlCarrier) (Ls : Bool → LibPack) (hL : Ls false = ⟨Json, Diff, nativeLib nc Y⟩)
+    (b : Binary) {fl fl2 : Flags} {e1 e2 : Env}
+    (hm : isDiffMode fl) (h : PatchTwin fl fl2) (hv2 : libIsV1 b fl = false)
+    (hf : fl.f = "patch") (hset : fl.set = false) (hmset : fl.mset = false)
+    (hkeys : fl.setkeys = "") (hn : fl.nargs = 1 ∨ fl.nargs = 2)
+    {ta tb : String} {a b' : Json}
+    (hi1 : e1.in1 = .ok ta) (hi2 : e1.in2 = .ok tb) (hw1 : fl.o = "" ∨ e1.write = .ok ())
+    (hra : (nativeLib nc Y).readDoc fl.yaml ta = .ok a)
+    (hrb : (nativeLib nc Y).readDoc fl.yaml tb = .ok b')
+    (ha : JText.DocOK nc a) (ha3 : a.finiteNums = true)
+    (hb : JText.DocOK nc b') (hb3 : b'.finiteNums = true)
+    {Na Nb : Nat} (la : PRC.lenLe Na a = true) (lb : PRC.lenLe Nb b' = true)
+    (hN : Na + Nb < 2 ^ 53)
+    (H : HashOK [Opt.prec fl.precision] a b') (Z : ZeroOK a b')
+    (ka : PRC.keysExpressible a = true) (kb : PRC.keysExpressible b' = true)
+    (hT : e2.in1 = .ok (emitted (proc Ls b fl e1)))
+    (ha2 : e2.in2 = e1.in1) (hw : fl2.o = "" ∨ e2.write = .ok ()) :
+    ∃ T d' r,
+      parsedOptions b fl = .ok [Opt.prec fl.precision] ∧
+      renderPatchM nc (diffM [Opt.prec fl.precision] a b') = .ok (some T) ∧
+      readPatchM nc T = .ok d' ∧ patchM a d' = .ok r ∧
+      specEq r b' = true ∧ specEq b' r = true ∧ r.listDoc = true ∧
+      (PrecMono [Opt.prec fl.precision] →
+        equivB [Opt.prec fl.precision] r b' = true ∧ equals [Opt.prec fl.precision] r b' = true) ∧
+      TwoRuns (proc Ls b fl e1) (proc Ls b fl2 e2) fl fl2 T (if T = "[]" then 0 else 1)
+        ((nativeLib nc Y).renderDoc fl.yaml [Opt.prec fl.precision] r) :=
+  Jd.CliRTM.patch_cli_round_trip (L := L) (F := F) (nc := nc) (Y := Y) (Ls := Ls) (hL := hL) (b := b) (fl := fl) (fl2 := fl2) (e1 := e1) (e2 := e2) (hm := hm) (h := h) (hv2 := hv2) (hf := hf) (hset := hset) (hmset := hmset) (hkeys := hkeys) (hn := hn) (ta := ta) (tb := tb) (a := a) (b' := b') (hi1 := hi1) (hi2 := hi2) (hw1 := hw1) (hra := hra) (hrb := hrb) (ha := ha) (ha3 := ha3) (hb := hb) (hb3 := hb3) (Na := Na) (Nb := Nb) (la := la) (lb := lb) (hN := hN) (H := H) (Z := Z) (ka := ka) (kb := kb) (hT := hT) (ha2 := ha2) (hw := hw)
+
+end
 
 end Jd.Props.C14
